@@ -218,11 +218,13 @@ Proof.
 Qed.
 Lemma nores_countdown e c ms gpio ch tg sd s : nores s (countdown e c ms gpio ch tg sd s).
 Proof.
-  unfold countdown. destruct (match find_slot _ _ _ with Some _ => _ | None => _ end); [|apply nores_refl].
-  pose proof (nores_uptime s) as U. destruct (uptime_msec s) as [s1 u]. cbn [fst] in U.
+  unfold countdown. set (s0 := if e then _ else s).
+  assert (N0 : nores s s0) by (unfold s0; destruct e; [apply nores_cd_cb|apply nores_refl]).
+  eapply nores_trans; [exact N0|]. unfold countdown_arm_slot.
+  destruct (match find_slot _ _ _ with Some _ => _ | None => _ end); [|apply nores_refl].
+  pose proof (nores_uptime s0) as U. destruct (uptime_msec s0) as [s1 u]. cbn [fst] in U.
   set (s2 := set_slots _ _). assert (N12 : nores s1 s2) by (apply nores_same; [reflexivity|eexists [_]; split; reflexivity|reflexivity]).
-  eapply nores_trans; [exact U|]. eapply nores_trans; [exact N12|]. eapply nores_trans; [apply nores_t2_set|].
-  destruct e; [apply nores_cd_cb|apply nores_startstop].
+  eapply nores_trans; [exact U|]. eapply nores_trans; [exact N12|]. eapply nores_trans; [apply nores_t2_set|apply nores_startstop].
 Qed.
 Lemma nores_sdt e c ch nv dur sd s : nores s (set_duration_timer e c ch nv dur sd s).
 Proof.
